@@ -594,6 +594,8 @@ fn apply_proj(pattern_str: &str) -> impl Applier<Expr, ExprAnalysis> {
         pattern: pattern(&pattern_str.replace(['[', ']'], "")),
         used: pattern_str
             .split_whitespace()
+            // the last bracketed variable may be followed by the pattern's closing parentheses
+            .map(|s| s.trim_end_matches(')'))
             .filter(|s| s.starts_with('[') && s.ends_with(']'))
             .map(|s| var(&s[1..s.len() - 1]))
             .collect(),
